@@ -8,40 +8,49 @@ From Oras Require Import Base.Prelude Base.Regex Generated.GC20 Generated.GC13 M
 
 (* ---------- Read/Seek reference ---------- *)
 
-Record pos := mkPos { s_off : N; s_closed : bool }.
+(* An in-memory reader over the blob's bytes: position, closed flag, and the count of
+   reconnects (only to know which body behaviour [modes i] applies to a Read: at most
+   bm_chunk bytes per call, EOF with or after the last bytes -- Model/RemoteClient.v
+   read_chunk).  Whatever the behaviour, a Read returns a prefix of content[pos..] and
+   advances the position by exactly the bytes returned. *)
+Record pos := mkPos { s_off : N; s_closed : bool; s_bi : nat }.
 
-Definition ref_step (content : str) (k : pos) (o : sop) : pos * list (N * N) * sout :=
-  match o with
-  | SClose => (mkPos (s_off k) true, [], SClosed)
-  | SRead n =>
-      if s_closed k then (k, [], SErr)
-      else
-        let got := firstn (N.to_nat n) (skipn (N.to_nat (s_off k)) content) in
-        (mkPos (s_off k + len got) false, [], SBytes got)
-  | SSeek off w =>
-      if s_closed k then (k, [], SErr)
-      else
-        let tgt : Z := match w with
-                       | SeekStart => off
-                       | SeekCurrent => (off + Z.of_N (s_off k))%Z
-                       | SeekEnd => (off + Z.of_N (len content))%Z
-                       end in
-        if (tgt <? 0)%Z then (k, [], SErr)
+Section SeekRef.
+  Variable modes : nat -> bmode.
+
+  Definition ref_step (content : str) (k : pos) (o : sop) : pos * list (N * N) * sout :=
+    match o with
+    | SClose => (mkPos (s_off k) true (s_bi k), [], SClosed)
+    | SRead n =>
+        if s_closed k then (k, [], SErr)
         else
-          let t := Z.to_N tgt in
-          (mkPos t false,
-           (* a Range request exactly when the position changes and lies inside the blob *)
-           if negb (t =? s_off k) && (t <? len content) then [(t, len content - 1)] else [],
-           SPos t)
-  end.
+          let '(got, _, eof) := read_chunk (modes (s_bi k)) n (skipn (N.to_nat (s_off k)) content) in
+          (mkPos (s_off k + len got) false (s_bi k), [], SData got eof)
+    | SSeek off w =>
+        if s_closed k then (k, [], SErr)
+        else
+          let tgt : Z := match w with
+                         | SeekStart => off
+                         | SeekCurrent => (off + Z.of_N (s_off k))%Z
+                         | SeekEnd => (off + Z.of_N (len content))%Z
+                         end in
+          if (tgt <? 0)%Z then (k, [], SErr)
+          else
+            let t := Z.to_N tgt in
+            (* a Range request exactly when the position changes and lies inside the blob *)
+            if negb (t =? s_off k) && (t <? len content)
+            then (mkPos t false (S (s_bi k)), [(t, len content - 1)], SPos t)
+            else (mkPos t false (s_bi k), [], SPos t)
+    end.
 
-Fixpoint ref_run (content : str) (k : pos) (os : list sop) : list (list (N * N) * sout) :=
-  match os with
-  | [] => []
-  | o :: rest =>
-      let '(k1, rq, out) := ref_step content k o in
-      (rq, out) :: ref_run content k1 rest
-  end.
+  Fixpoint ref_run (content : str) (k : pos) (os : list sop) : list (list (N * N) * sout) :=
+    match os with
+    | [] => []
+    | o :: rest =>
+        let '(k1, rq, out) := ref_step content k o in
+        (rq, out) :: ref_run content k1 rest
+    end.
+End SeekRef.
 
 (* ---------- hypotheses and conclusions of the any-server theorems ---------- *)
 
